@@ -43,6 +43,16 @@ fn bfs_view(v: &[Vec<isize>]) -> Vec<Vec<isize>> {
         .collect()
 }
 
+/// probes of the accessors outside the table: `nr_gens()`, and `get` at the first row that does
+/// not exist and at `usize::MAX` for every letter of `all_gens()` (-1 for None).  Letters outside
+/// `all_gens()` are not probed: on an existing row they are an index panic by design.
+fn probes(t: &CosetTable) -> String {
+    let at = |c: usize| -> Vec<isize> {
+        t.all_gens().iter().map(|&g| t.get(c, g).map(|d| d as isize).unwrap_or(-1)).collect()
+    };
+    format!("{} {} {}", t.nr_gens(), enc_list(&at(t.len())), enc_list(&at(usize::MAX)))
+}
+
 fn make_table(g: &Group, rels: &[Vec<isize>], subs: &[Vec<isize>]) -> CosetTable {
     let r: Vec<FreeWord> = rels.iter().map(|w| fw(w)).collect();
     let s: Vec<FreeWord> = subs.iter().map(|w| fw(w)).collect();
@@ -65,7 +75,7 @@ fn cases(ctx: &mut Ctx, g: &Group, subs: &[Vec<isize>], kind: &str) {
     ctx.case("ct", &tags, || g.encode(subs), || {
         let t = make_table(g, &g.rels, subs);
         let v = view(&t);
-        format!("{} {}", enc_lists(&v), enc_lists(&bfs_view(&v)))
+        format!("{} {} {}", enc_lists(&v), enc_lists(&bfs_view(&v)), probes(&t))
     });
     ctx.case("reps", &tags, || g.encode(subs), || {
         let t = make_table(g, &g.rels, subs);
